@@ -34,10 +34,20 @@ DoFail  == /\ s.call.pc # "idle" /\ nops < MaxPerCall
 DoFree  == /\ s.call.pc # "idle"
            /\ \E id \in 1..MaxIds : FreeOK(s, id) /\ s' = FreeDo(s, id)
            /\ UNCHANGED <<nid, ncalls, nops>>
+\* worker threads of a threaded coder, concurrent with any call
+DoWAlloc == /\ s.call.pc # "idle" /\ nops < MaxPerCall /\ nid <= MaxIds
+            /\ WAllocOK(s, nid) /\ s' = WAllocDo(s, nid)
+            /\ nid' = nid + 1 /\ nops' = nops + 1 /\ UNCHANGED ncalls
+DoWFail  == /\ s.call.pc # "idle" /\ nops < MaxPerCall /\ ~s.pend
+            /\ WFailOK(s) /\ s' = WFailDo(s)
+            /\ nops' = nops + 1 /\ UNCHANGED <<nid, ncalls>>
+DoWFree  == /\ s.call.pc # "idle"
+            /\ \E id \in 1..MaxIds : WFreeOK(s, id) /\ s' = WFreeDo(s, id)
+            /\ UNCHANGED <<nid, ncalls, nops>>
 DoRet   == /\ s.call.pc # "idle"
            /\ \E ret \in Rets, same \in BOOLEAN : RetOK(s, ret, same) /\ s' = RetDo(s, ret, same)
            /\ UNCHANGED <<nid, ncalls, nops>>
 
-MCNext == DoBegin \/ DoAlloc \/ DoFail \/ DoFree \/ DoRet
+MCNext == DoBegin \/ DoAlloc \/ DoFail \/ DoFree \/ DoRet \/ DoWAlloc \/ DoWFail \/ DoWFree
 MCSpec == MCInit /\ [][MCNext]_mcvars
 =============================================================================
